@@ -158,11 +158,24 @@ def run_case(case, rng):
             raise Inconclusive("state_list differs")
         arr = Rf.Arr(sp, states=S, actions=A)
         w = rng.choice([0.05, 0.1, 1.0, 1.0, 10.0])
-        iters = rng.choice([300, 2000, 300, 2000, 1, 2, 3])      # and budgets the iteration cannot settle within
+        iters = rng.choice([300, 2000, 300, 2000, 1, 2, 3, None])      # budgets the iteration cannot settle within; the default
+        # the wrapper's own policy prior: default (uniform over available actions), one row shared by all states, or S x A
+        pk = rng.choice(["none", "none", "shared", "per_state"])
+        if pk == "none":
+            wprior_t, wprior = None, np.full((len(S), len(A)), 1.0 / len(A))
+        elif pk == "shared":
+            p_ = np.array(_open_simplex(rng, len(A)))
+            wprior_t, wprior = torch.tensor(p_[None, :]), np.tile(p_, (len(S), 1))
+        else:
+            wprior = np.array([_open_simplex(rng, len(A)) for _ in S])
+            wprior_t = torch.tensor(wprior)
         case.family = "wrapper"
-        case.params = dict(n=len(S), actions=len(A), gamma=sp.gamma, weight=w, iters=iters)
+        case.params = dict(n=len(S), actions=len(A), gamma=sp.gamma, weight=w, iters=iters, prior=pk)
+        kw_ = {} if iters is None else dict(iterations=iters)
+        if wprior_t is not None:
+            kw_["policy_prior"] = wprior_t
         res = case.call("EntropyRegularizedPolicyIteration.plan_on",
-                        EntropyRegularizedPolicyIteration(iterations=iters, entropy_weight=w).plan_on, mdp)
+                        EntropyRegularizedPolicyIteration(entropy_weight=w, **kw_).plan_on, mdp)
         case.count("wrapper_calls")
         case.count("raw_calls", 0)
         case.nontrivial = len(A) >= 2
@@ -179,14 +192,14 @@ def run_case(case, rng):
         q = np.array([[float(res.Q[s][a]) for a in A] for s in S])
         v = np.array([float(res.V[s]) for s in S])
         pi = np.array([[float(res.policy[s][a]) for a in A] for s in S])
-        judge(case, "wrapper", arr.T, arr.ER, sp.gamma, np.full(len(S), w), np.full((len(S), len(A)), 1.0 / len(A)),
-              q, v, pi, True, dict(case.params))
+        judge(case, "wrapper", arr.T, arr.ER, sp.gamma, np.full(len(S), w), wprior,
+              q, v, pi, pk == "none", dict(case.params))
         iv = float(res.initial_value)
         exp = sum(p * float(res.V[s]) for s, p in sp.init)
         case.check(abs(iv - exp) <= 1e-9 * max(1, abs(exp)), "wrapper:initial_value!=E[V]", f"{iv!r} vs {exp!r}")
         # the same planner object, another temperature, the SAME mdp object (annealing): judged for the new weight
         w2 = rng.choice([x for x in (0.05, 0.1, 1.0, 10.0) if x != w])
-        planner = EntropyRegularizedPolicyIteration(iterations=iters, entropy_weight=w)
+        planner = EntropyRegularizedPolicyIteration(entropy_weight=w, **kw_)
         first = case.call("plan_on(first)", planner.plan_on, mdp)
         planner.entropy_weight = w2
         res2 = case.call("plan_on(second weight)", planner.plan_on, mdp)
@@ -195,8 +208,8 @@ def run_case(case, rng):
             q2 = np.array([[float(res2.Q[s][a]) for a in A] for s in S])
             v2 = np.array([float(res2.V[s]) for s in S])
             pi2 = np.array([[float(res2.policy[s][a]) for a in A] for s in S])
-            judge(case, "wrapper-replan", arr.T, arr.ER, sp.gamma, np.full(len(S), w2), np.full((len(S), len(A)), 1.0 / len(A)),
-                  q2, v2, pi2, True, dict(case.params, second_weight=w2))
+            judge(case, "wrapper-replan", arr.T, arr.ER, sp.gamma, np.full(len(S), w2), wprior,
+                  q2, v2, pi2, pk == "none", dict(case.params, second_weight=w2))
 
 
 def _open_simplex(rng, n):
